@@ -89,6 +89,27 @@ def reader_fields(eng):
     return fd, dparam, reads, ctor, post
 
 
+def reader_exprs(eng):
+    """key -> the expression that rebuilds it in from_dict: a local assigned from the dict entry, or the constructor argument itself (helpers inlined)."""
+    from .common import inline_simple_calls
+    fd, dparam, reads, ctor, post = reader_fields(eng)
+    by_key = {}
+    for local, (key, e) in reads.items():
+        by_key[key] = e
+    if ctor is not None:
+        call = ctor[1]
+        for e in list(call.args) + [kw.value for kw in call.keywords]:
+            if isinstance(e, ast.Name) and e.id in reads:
+                continue
+            ie = inline_simple_calls(eng, e)
+            ks = _keys_read(ie, dparam)
+            if len(ks) == 1:
+                by_key.setdefault(list(ks)[0], ie)
+    for a_, (key, e) in post.items():
+        by_key.setdefault(key, e)
+    return by_key
+
+
 def _keys_read(expr, dparam):
     out = set()
     for sub in ast.walk(expr):
@@ -205,12 +226,23 @@ def rule_plain_data(eng, rep):
     rets = [n for n, d in cfg.g.nodes(data=True) if d["kind"] == "stmt" and isinstance(d["ast"], ast.Return)]
     flag = td.posparams[1] if len(td.posparams) > 1 else None
     seen_true = False
+    def is_wrapped(v):
+        return isinstance(v, ast.Call) and id(v) in eng.res.calls and any(t.fid == "util.replace_nan_with_none" for t in eng.res.calls[id(v)].targets) \
+            and v.args and isinstance(v.args[0], ast.Name) and v.args[0].id == dname
+
     for r in rets:
         val = cfg.ast_of(r).value
         gs = [a for (_b, a) in guards_of(cfg, r) if isinstance(a.lhs, ast.Name) and a.lhs.id == flag]
+        if isinstance(val, ast.IfExp) and isinstance(val.test, ast.Name) and val.test.id == flag and not gs:
+            # return f(d) if replace_nan else d
+            seen_true = True
+            if is_wrapped(val.body):
+                rep.ok(rule, site, "`... if %s else ...`: the replace_nan arm returns replace_nan_with_none(<whole dict>)" % flag)
+            else:
+                rep.bad(rule, site, "solver.OptimResults.to_dict|nan-not-replaced", "replace_nan=True arm does not pass the whole dict through replace_nan_with_none")
+            continue
         on_replace = any(a.op == "truth" for a in gs)
-        wrapped = isinstance(val, ast.Call) and any(t.fid == "util.replace_nan_with_none" for t in eng.res.calls[id(val)].targets) \
-            and val.args and isinstance(val.args[0], ast.Name) and val.args[0].id == dname
+        wrapped = is_wrapped(val)
         if on_replace:
             seen_true = True
             if wrapped:
@@ -299,9 +331,7 @@ def rule_none_back_to_nan(eng, rep, forms):
     rule = "C20-3.None-mapped-back-to-NaN"
     fd, dparam, reads, ctor, post = reader_fields(eng)
     site = "dfols/solver.py:OptimResults.from_dict"
-    by_key = {}
-    for local, (key, e) in reads.items():
-        by_key[key] = e
+    by_key = reader_exprs(eng)
     safe = {}
     for k, (kind, nullable) in sorted((forms or {}).items()):
         if kind in ("int", "str", "bool", "nested", "none", None):
@@ -440,7 +470,7 @@ def nullable_solution_fields(eng):
 
 def _quiet_safe(eng, forms):
     fd, dparam, reads, ctor, post = reader_fields(eng)
-    by_key = dict((key, e) for (_l, (key, e)) in reads.items())
+    by_key = reader_exprs(eng)
     safe = {}
     for k, (kind, nullable) in forms.items():
         if kind in ("int", "str", "bool"):
